@@ -70,6 +70,16 @@ def cases(rng, tier):
         cs.append(Case(25, [0x80], [bytes([0, 2, 1, 255]) + bytes(ln)], "mp.over-65535"))
     for ln in ((4096, 8000) if tier == "quick" else (4096, 8000, 65536, 70000)):
         cs.append(Case(20, [0, 0], [bytes([32, 1, 2, 3, 4]) * (ln // 5)], "prefixes.long"))
+    # the structured UPDATE corpus of C16/C17 (consistent section lengths, faults inside the attribute block)
+    import C16
+    import C17
+    for c in C16.cases(rng, tier):
+        c.tag = "c16." + c.tag
+        cs.append(c)
+    for c in C17.cases(rng, tier):
+        if c.op == 27:
+            c.tag = "c17." + c.tag
+            cs.append(c)
     return cs
 
 
